@@ -105,7 +105,12 @@ func (p *Parser) parseHeader(data []byte) (header *parser.PacketHeader, buf []by
 		}
 
 		header.Namespace = string(data[:i])
-		data = data[i+1:]
+		if i < len(data) {
+			data = data[i+1:]
+		} else {
+			// No comma: the namespace is the rest of the packet.
+			data = data[i:]
+		}
 	} else {
 		header.Namespace = "/"
 	}
